@@ -41,11 +41,11 @@ package server
 //@   opt autoloops
 //@   requires s != nil && s.nsMgr != nil && nsMetasOK(s.nsMgr) && kvNodesOK(s.nsMgr)
 //@   requires forall k string :: in(k, s.nsMgr.kvNodes) ==> s.nsMgr.kvNodes[k].Node != nil
-//@   mapassert cmdArgMap key == nnName(nsNode) && nsNode == s.nsMgr.kvNodes[nsDesp(ns, int(murmur3sum(realKey)) % s.nsMgr.nsMetas[ns].PartitionNum)]
-//@   mapassert cmdArgMap cmdName != "plset" ==> len(value) >= 2 && sameSlice(value[len(value)-1], arg) && (in(key, cmdArgMap) ==> len(value) == len(cmdArgMap[key]) + 1)
-//@   mapassert cmdArgMap cmdName != "plset" && in(key, cmdArgMap) ==> (forall j int :: 0 <= j && j < len(cmdArgMap[key]) ==> sameSlice(value[j], cmdArgMap[key][j]))
-//@   mapassert cmdArgMap cmdName == "plset" ==> len(value) >= 3 && sameSlice(value[len(value)-2], arg) && sameSlice(value[len(value)-1], vals[kindex]) && (in(key, cmdArgMap) ==> len(value) == len(cmdArgMap[key]) + 2)
-//@   mapassert cmdArgMap cmdName == "plset" && in(key, cmdArgMap) ==> (forall j int :: 0 <= j && j < len(cmdArgMap[key]) ==> sameSlice(value[j], cmdArgMap[key][j]))
+//@   mapassert cmdArgMap mapkey == nnName(nsNode) && nsNode == s.nsMgr.kvNodes[nsDesp(ns, int(murmur3sum(realKey)) % s.nsMgr.nsMetas[ns].PartitionNum)]
+//@   mapassert cmdArgMap cmdName != "plset" ==> len(mapval) >= 2 && sameSlice(mapval[len(mapval)-1], arg) && (in(mapkey, cmdArgMap) ==> len(mapval) == len(cmdArgMap[mapkey]) + 1)
+//@   mapassert cmdArgMap cmdName != "plset" && in(mapkey, cmdArgMap) ==> (forall j int :: 0 <= j && j < len(cmdArgMap[mapkey]) ==> sameSlice(mapval[j], cmdArgMap[mapkey][j]))
+//@   mapassert cmdArgMap cmdName == "plset" ==> len(mapval) >= 3 && sameSlice(mapval[len(mapval)-2], arg) && sameSlice(mapval[len(mapval)-1], vals[kindex]) && (in(mapkey, cmdArgMap) ==> len(mapval) == len(cmdArgMap[mapkey]) + 2)
+//@   mapassert cmdArgMap cmdName == "plset" && in(mapkey, cmdArgMap) ==> (forall j int :: 0 <= j && j < len(cmdArgMap[mapkey]) ==> sameSlice(mapval[j], cmdArgMap[mapkey][j]))
 //@   modifies *
 //@ loop 1
 //@   invariant ghost(mapupd, cmdArgMap) == iter
